@@ -2,5 +2,5 @@ From Coq Require Import ExtrOcamlBasic.
 From JV Require Import Model.ScopeAst Model.ScopeIdTrack Model.ScopeFrameExec Spec.ScopeSpecStmt Model.ScopeGuards Model.ScopeMeta Model.ScopeIdTrackF.
 Extraction "scope_x.ml" ScopeFrameExec.frender ScopeFrameExec.frender_st ScopeFrameExec.fresolves
   ScopeSpecStmt.srender ScopeIdTrack.frames_of ScopeIdTrack.find_undeclared
-  ScopeGuards.core_prog ScopeGuards.core2_prog ScopeGuards.wf_names ScopeGuards.noalias ScopeGuards.guard_rbw
+  ScopeGuards.core_prog ScopeGuards.core2_prog ScopeGuards.core3_prog ScopeGuards.wf_names ScopeGuards.noalias ScopeGuards.guard_rbw
   ScopeIdTrackF.frames_setblock_f ScopeMeta.meta_undeclared ScopeMeta.nocall_l ScopeMeta.referenced ScopeMeta.requested.
